@@ -57,26 +57,34 @@ Definition apply_opt (fault : option nat) (n : nat) (t : list row) (es : list ed
   | None => (Some (apply_edits t es), apply_edits t es)
   end.
 
-(* rows before; the edits of the statement's row-edit calls in call order; number of calls that succeed before
-   the failing one (None: no call fails); trigger: audit table before + the audit row written for each call;
-   observed: statement returned an error, rows after, audit rows after; armed ApplyEdits fault (call number) *)
-Definition case : Type :=
-  (list row * list edit * option nat * option (list row * list row) * bool * list row * list row * option nat)%type.
+(* one row-edit call as the driver reads the statement: an accumulated edit, an error handled by the row iterator
+   (REPLACE / ON DUPLICATE KEY UPDATE), an ignorable error (a duplicate row of INSERT IGNORE) *)
+Inductive kcall := KGood (e : edit) | KHandled | KIgn.
+Definition conv (k : kcall) : call edit :=
+  match k with KGood e => CGood e | KHandled => CHandled | KIgn => CBad true end.
 
-Definition calls_of (es : list edit) (fail_at : option nat) : list (call edit) :=
+(* rows before; the statement's row-edit calls in call order; number of calls that succeed before
+   the failing one (None: no call fails); trigger: audit table before + the audit row written for each call;
+   observed: statement returned an error, rows after, audit rows after; armed ApplyEdits fault (call number); checkpointing iterator (INSERT IGNORE) *)
+Definition case : Type :=
+  (list row * list kcall * option nat * option (list row * list (option row)) * bool * list row * list row
+   * option nat * bool)%type.
+
+Definition calls_of (es : list kcall) (fail_at : option nat) : list (call edit) :=
   match fail_at with
-  | None => map CGood es
-  | Some k => map CGood (firstn k es) ++ [CBad false]
+  | None => map conv es
+  | Some k => map conv (firstn k es) ++ [CBad false]
   end.
 
 Definition is_err (r : result) : bool := match r with RErr => true | ROk => false end.
 
 Definition ok (c : case) : bool :=
-  let '(before, es, fail_at, trig, obs_err, obs_after, obs_audit, afault) := c in
+  let '(before, es, fail_at, trig, obs_err, obs_after, obs_audit, afault, ckpt) := c in
   let cs := calls_of es fail_at in
   match trig with
   | None =>
-      let '(res, after) := run_stmt (list row) edit (apply_opt afault) before cs in
+      let '(res, after) := (if ckpt then run_stmt_ckpt (list row) edit (apply_opt afault) before cs
+                            else run_stmt (list row) edit (apply_opt afault) before cs) in
       Bool.eqb (is_err res) obs_err && bag_eqb after obs_after
   | Some (audit_before, audit_rows) =>
       let '(res, after, audit_after) :=
